@@ -19,7 +19,7 @@ ID = "C20"
 RULE = ("plan = (scenario W1 pending module-level forward refs / W2 function-local self-referencing classes / W3 conversions "
         "racing registrations / W4 concurrent decoration + first calls / W5 warmed steady state / W6 a thread declaring new classes "
         "with the same annotation spellings while others make first parses, world parameters, 2-3 threads "
-        "x 1-3 operations, schedule policy uniform/targeted/quantum/pct/anchor-pct/sequential with its private seed); non-trivial = >=1 "
+        "x 1-3 operations, schedule policy uniform/targeted/quantum/pct/anchor-pct/anchor-cuts/sequential with its private seed); non-trivial = >=1 "
         "pre-emptive switch while >=2 threads are in the middle of an operation and one of them is inside an anchor function "
         "(resolve_forward_refs, apply_for, TypeRegistry.register/resolve, ...); distinct by hash of the switch-location sequence")
 ASSUMPTIONS = [
@@ -384,8 +384,20 @@ def generate(rng, tier):
         pol = {"kind": "quantum", "q": rng.choice([1, 2, 3, 7, 20, 100]), "seed": pseed}
     elif r < 0.85:
         pol = {"kind": "pct", "d": rng.choice([1, 2, 3]) if tier == "quick" else rng.choice([2, 3, 4, 6]), "seed": pseed}
-    elif r < 0.95:
+    elif r < 0.9:
         pol = {"kind": "apct", "d": rng.choice([2, 3, 4]), "est": rng.choice([60, 150, 400]), "seed": pseed}
+    elif r < 0.97:
+        # stop one thread inside the lazily-initialising code after i of its points there, run another one up to its j-th
+        # point in the code that reads that state, then let the first finish: the shape of a read racing an initialisation
+        t1 = rng.randrange(nthreads)
+        t2 = rng.choice([t for t in range(nthreads) if t != t1])
+        if rng.random() < 0.6:
+            # count only the lines that store into / read from the lazily initialised shared state
+            pol = {"kind": "acuts", "cuts": [[t1, rng.randint(1, 60), "W"], [t2, rng.randint(1, 120), "R"]], "seed": pseed}
+        else:
+            i = int(round(2 ** rng.uniform(0, 10.5)))
+            j = int(round(2 ** rng.uniform(0, 7.5)))
+            pol = {"kind": "acuts", "cuts": [[t1, i, "w"], [t2, j, rng.choice(["r", "r", "a"])]], "seed": pseed}
     else:
         pol = {"kind": "sequential", "seed": pseed}
     plan["schedule"] = pol
